@@ -18,7 +18,7 @@ meta={'name':name,'property':prop,'origin':'independent (sub-agent given only th
  'what':what,'needs':needs,'patch':'patch.diff',
  'demonstration':[os.path.basename(d)+'.txt' for d in demos],
  'demo_place_at':place[0].split('place at:')[1].strip() if place else '',
- 'demo_run':re.sub(r'/tmp/wt/C\d+','<worktree>',run[0].split('run with:')[-1].strip()) if run else '',
+ 'demo_run':re.sub(r'/tmp/wt/\w+','<worktree>',run[0].split('run with:')[-1].strip()) if run else '',
  'ran':'scripts/verify_seed.sh in a scratch worktree of /repo HEAD: patch applies and builds; pinned suite passes with the patch; demonstration fails with the patch; demonstration passes without it',
  'expect':[]}
 json.dump(meta,open(dst+'/meta.json','w'),indent=1)
